@@ -441,7 +441,19 @@ def _r3(model, rep):
             if nm == "numpy.add.at":
                 log.append(("add.at", args[0], args[1]))
                 return None
+            # real modes delivered in a complex array are taken as real: the
+            # same solution (both outcomes of the test are run)
+            if nm == "numpy.isrealobj":
+                return real_case[0]
+            if nm == "numpy.iscomplexobj":
+                return True
+            if nm in ("numpy.imag", "numpy.real"):
+                return args[0]
+            if nm == "numpy.any":
+                return False
             return NotImplemented
+        real_case = [False]
+
         class SolX:
             skv_isarray = True
 
@@ -458,6 +470,15 @@ def _r3(model, rep):
         try:
             it = Interp(model, call_hook=hook)
             r = it.call(f2, args, {})
+            if name == "solve_eigen":
+                n0 = len(log)
+                real_case[0] = True
+                r2 = Interp(model, call_hook=hook).call(f2, args, {})
+                second = [e_ for e_ in log[n0:] if e_[0] == "set"]
+                if not (isinstance(r2, tuple) and isinstance(r2[1], Y)
+                        and len(second) == 1 and second[0][1] == "I"):
+                    r = ("L", None)
+                del log[n0:]
         except (Unsupported, Raised) as e:
             # eigen variant needs X.shape; fall back to the structural form
             r = None
@@ -822,6 +843,34 @@ def _lossy_stores(model, rep):
                          f"integer (or omitted) right-hand side make it an "
                          f"integer array and the penalised entries are "
                          f"truncated or overflow", node.lineno)
+    # the right-hand side allocated for an omitted b is handed to the same
+    # stores (penalize with overwrite=True keeps it): it must be floating
+    ib = model.func(U, "_init_bc")
+    allocs = [n_ for n_ in walk_no_nested(ib.node) if isinstance(n_, ast.Assign)
+              and len(n_.targets) == 1 and src(n_.targets[0]) == "b"
+              and isinstance(n_.value, ast.Call)
+              and src(n_.value.func).split(".")[-1] in (
+                  "zeros", "zeros_like", "empty", "empty_like", "ones",
+                  "ones_like", "full", "full_like")]
+    if len(allocs) != 1:
+        raise AnalysisError(f"_init_bc: {len(allocs)} allocations of the "
+                            f"default right-hand side")
+    al = allocs[0]
+    dt = [k.value for k in al.value.keywords if k.arg == "dtype"]
+    from ..dtypeflow import FLOAT_MARKS
+    flo = bool(dt) and any(src(y) in FLOAT_MARKS or (
+        isinstance(y, ast.Constant) and isinstance(y.value, float))
+        for y in ast.walk(dt[0]))
+    cons = "_init_bc:default-b:floating"
+    if flo:
+        rep.ok(R5, cons, f"omitted b allocated as {src(dt[0])[:50]}")
+    else:
+        rep.fail(R5, F, "_init_bc", cons,
+                 f"'{src(al)[:60]}' gives the right-hand side built for an "
+                 f"omitted b the dtype of x: for integer prescribed values "
+                 f"an integer array, which penalize(..., overwrite=True) "
+                 f"keeps and stores x[D] / epsilon into (overflow to "
+                 f"-9223372036854775808)", al.lineno)
     if nq < 1:
         raise AnalysisError("no store of a quotient into an operand copy "
                             "found in the boundary condition helpers "
@@ -1050,6 +1099,59 @@ def _storage_format(model, rep):
                          f"condense and penalize return as given) have no "
                          f"such attribute and the call raises "
                          f"AttributeError where it used to solve", x.lineno)
+    # reductions that not every storage format offers: dia_matrix (and lil /
+    # dok for some) has no .max() / .min() - a matrix in the format it came
+    # in needs a conversion first
+    for name in dict.fromkeys(BC_FUNCS):
+        try:
+            fn = model.func(U, name)
+        except AnalysisError:
+            continue
+        params = set(fn.params())
+        fdefs = {}
+        for x in walk_no_nested(fn.node):
+            if isinstance(x, ast.Assign) and len(x.targets) == 1 and \
+                    isinstance(x.targets[0], ast.Name):
+                fdefs.setdefault(x.targets[0].id, []).append(x.value)
+        for x in walk_no_nested(fn.node):
+            if not (isinstance(x, ast.Call) and isinstance(
+                    x.func, ast.Attribute) and x.func.attr in (
+                    "max", "min", "argmax", "argmin")):
+                continue
+            recv = x.func.value
+            if isinstance(recv, ast.Call) and src(recv.func) in (
+                    "abs", "np.abs") and recv.args:
+                recv = recv.args[0]
+            names = [recv.id] if isinstance(recv, ast.Name) else []
+            conv = isinstance(recv, ast.Call) and isinstance(
+                recv.func, ast.Attribute) and recv.func.attr in (
+                "tocsr", "tocsc", "tocoo")
+            if conv:
+                inner = recv.func.value
+                names = [inner.id] if isinstance(inner, ast.Name) else []
+            # is it (a copy of) the matrix operand?
+            def matrix(nm, depth=0):
+                if nm == "A":
+                    return True
+                return depth < 4 and any(
+                    isinstance(y, ast.Name) and matrix(y.id, depth + 1)
+                    for d_ in fdefs.get(nm, []) for y in ast.walk(d_)
+                    if not (isinstance(d_, ast.Call) and isinstance(
+                        d_.func, ast.Attribute) and d_.func.attr in (
+                        "diagonal", "toarray", "todense")))
+            if not names or not matrix(names[0]) or "A" not in params:
+                continue
+            nflag += 1
+            cons = f"{name}:{src(x)[:30]}:any-format"
+            if conv:
+                rep.ok(R3, cons, "reduction after a conversion to a "
+                       "compressed format")
+            else:
+                rep.fail(R3, F, name, cons,
+                         f"'{src(x)[:50]}' reduces the matrix in the format "
+                         f"it came in: dia_matrix has no .max(), so the "
+                         f"call raises AttributeError for a format the "
+                         f"helper otherwise supports", x.lineno)
     if nflag < 3:
         raise AnalysisError(f"only {nflag} reads of the canonical-format "
                             f"flag found in utils.py, 4 confirmed by hand")
@@ -1333,6 +1435,13 @@ def run(model: Model, rep, tier: str) -> None:
 
 _U = "skfem/utils.py"
 MUTANTS = [
+    ("penalize takes the fallback scale in the format given",
+     (_U, "            scale = abs(Aout.tocsr()).max() if Aout.nnz > 0 else "
+      "0.", "            scale = abs(Aout).max() if Aout.nnz > 0 else 0."),
+     "C05-R3"),
+    ("right-hand side for an omitted b allocated like x",
+     (_U, "        b = np.zeros(x.shape, dtype=np.result_type(x, "
+      "np.float32))", "        b = np.zeros_like(x)"), "C05-R5"),
     ("solve_linear expands into a plain copy of x again",
      (_U, "        y = x.astype(np.result_type(x, sol))\n",
       "        y = x.copy()\n"), "C05-R5"),
@@ -1363,7 +1472,7 @@ MUTANTS = [
     ("penalize divides by the norm of the constrained diagonal unguarded",
      (_U, "        scale = np.linalg.norm(d[D], np.inf) if len(D) > 0 else "
       "0.\n        if scale == 0.:\n            # constrained rows without "
-      "(diagonal) entries\n            scale = abs(Aout).max() if Aout.nnz "
+      "(diagonal) entries\n            scale = abs(Aout.tocsr()).max() if Aout.nnz "
       "> 0 else 0.\n        if scale == 0.:\n            scale = 1.\n"
       "        epsilon = 1e-10 / float(scale)",
       "        epsilon = 1e-10 / np.linalg.norm(d[D], np.inf).astype(float)"),
